@@ -23,10 +23,10 @@ def writer_values(w, defs, quick, rng):
     sizes = [0, 1, 3] if quick else [0, 1, 2, 9, 28]
     strlens = [0, 1, 5] if quick else [0, 1, 255, 257, 2049]
     vals = list(U.struct_variants(w, defs, sizes, strlens))
-    if quick and len(vals) > 14:
+    if quick and len(vals) > 60:
         head, rest = vals[:2], vals[2:]
         rng.shuffle(rest)
-        vals = head + rest[:12]
+        vals = head + rest[:58]
     return vals
 
 
@@ -39,7 +39,8 @@ def pair_cases(prop, defs, pairs, quick, rng, per_pair):
         if w not in wvals:
             wvals[w] = writer_values(w, defs, quick, rng)
         vals = wvals[w]
-        picks = vals if per_pair >= len(vals) else ([vals[0]] + rng.sample(vals[1:], per_pair - 1))
+        pp = len(vals) if label.startswith("same") else per_pair     # the unchanged schema gets every value
+        picks = vals if pp >= len(vals) else ([vals[0]] + rng.sample(vals[1:], pp - 1))
         for (vl, v) in picks:
             n += 1
             cid = "%s-%s-%s-%s-%d" % (prop, w, t, vl, n)
